@@ -140,7 +140,13 @@ impl<'tcx> Cx<'tcx> {
                 }
             }
         }
-        format!("{{\"const\":{{\"ty\":{},\"val\":{},\"str\":{},\"fn\":{},\"cdef\":{},\"s\":{}}}}}", self.ty(t), val, strval, fnj, cdef, esc(&format!("{}", c.const_)))
+        let mut stat = "null".to_string();
+        if let mir::Const::Val(mir::ConstValue::Scalar(rustc_middle::mir::interpret::Scalar::Ptr(ptr, _)), _) = c.const_ {
+            if let Some(rustc_middle::mir::interpret::GlobalAlloc::Static(d)) = tcx.try_get_global_alloc(ptr.provenance.alloc_id()) {
+                stat = esc(&tcx.def_path_str(d));
+            }
+        }
+        format!("{{\"const\":{{\"ty\":{},\"val\":{},\"str\":{},\"fn\":{},\"cdef\":{},\"static\":{},\"s\":{}}}}}", self.ty(t), val, strval, fnj, cdef, stat, esc(&format!("{}", c.const_)))
     }
     fn docflag(&self, did: DefId) -> &'static str {
         if did.is_local() { return "null"; }
